@@ -16,6 +16,7 @@ POS = {  # positional argument values by parameter name
     "start": 0, "num": 2, "numblks": 4, "page_code": 0x0A, "data_type": 0, "service_action": 1,
     "protocal": 4, "t_length": 2, "byte_block": 1, "t_dir": 1, "t_type": 0, "off_line": 0, "fetures": 0, "count": 1, "command": 0xEC,
 }
+ALT = {"data_type": [1, 2], "page_code": [0x08, 0x3F], "acode": [0]}
 OPT = {  # optional keyword values by constructor parameter name
     "alloclen": 64, "alloc_len": 64, "evpd": 0, "rdprotect": 1, "wrprotect": 1, "dpo": 1, "fua": 1, "rarc": 1, "group": 3, "immed": 1,
     "anchor": 0, "unmap": 1, "ndob": 0, "invert": 1, "inv1": 1, "inv2": 1, "rng": 1, "fast": 1, "prevent": 1, "report": 2,
@@ -164,6 +165,12 @@ def method_calls(summary, rng, tier):
                     calls.append(dict(method=name, pos=[["i", sa]], kw=kw, blocksize=bs, unmarshall_kw=u))
                 continue
             calls.append(dict(method=name, pos=pos, kw=kw, blocksize=bs, unmarshall_kw=u))
+            # other values of the arguments that select WHAT is asked for (the answer a device gives need not be of that kind)
+            for i, p in enumerate(req):
+                for alt in ALT.get(p, []):
+                    pos2 = [list(x) for x in pos]
+                    pos2[i] = ["i", alt]
+                    calls.append(dict(method=name, pos=pos2, kw=kw, blocksize=bs, unmarshall_kw=u))
     return calls
 
 
@@ -208,6 +215,8 @@ def oracle(c, r, m, set_tables, t10):
             return "the buffer was decoded before the command was executed"
         if r.get("decoded_after") is False:
             return "the result is not the decoding of the buffer as the device left it"
+        if isinstance(r.get("decoded_after"), str):
+            return "the result is not the decoding of the buffer as the device left it: decoding that buffer %s" % r["decoded_after"][10:]
     elif r["outcome"] == "injected":
         if r["n_exec"] != 1 or "U" in r["events"] or "R" in r["events"]:
             return "after a device error the call continued: events %s" % r["events"]
